@@ -24,7 +24,7 @@ SETTINGS = {
                                      "ct_add_test", "add_test", "ct_add_section", "option")),
     "headers": "rst:\n  headers: ['=', '-', '~']\n  module_path_separator: '/'\n",
 }
-OUTMODES = ["abs", "rel", "nested", "parent", "prepop"]
+OUTMODES = ["abs", "rel", "nested", "parent", "prepop", "abs+symlink", "rel+symlink"]
 
 
 def diff(before, after):
@@ -52,6 +52,12 @@ def run_case(job):
             with open(b.path("work", "s.yaml"), "w") as f:
                 f.write(SETTINGS[sname] or "{}\n")
         inp = "proj/in" if kind == "tree" else "proj/in/lone.cmake"
+        if outmode.endswith("+symlink"):
+            # the input is reached through a symbolic link to its directory
+            for b in (box, box2):
+                os.symlink(os.path.join("proj", "in"), b.path("work", "lnk"))
+            inp = "lnk" if kind == "tree" else "lnk/lone.cmake"
+            outmode = outmode[:-len("+symlink")]
         out = {"abs": box.path("outside", "o"), "rel": "o/p", "nested": "proj/in/_docs", "parent": "proj",
                "prepop": "o"}[outmode]
         foreign = {}
